@@ -17,7 +17,7 @@ from vf.runner import REPO, h
 ID = "C20"
 LEVEL = "exploration"
 RULE = ("part 'format': Eliot messages (metadata + action/message typing + fields over the JSON-native domain incl. multi-line strings "
-        "and nesting; field names printable without whitespace or '=') are rendered by compact_format and pretty_format and the "
+        "and nesting; field names printable without whitespace or '='; some values nested 11-40 levels deep through lists) are rendered by compact_format and pretty_format and the "
         "output is re-parsed independently: header (task_uuid, '/'-joined level, ISO UTC timestamp equal to the message's to the "
         "microsecond), then every remaining field exactly once, type/status fields first and the rest sorted; compact values decoded "
         "with json.JSONDecoder.raw_decode must equal the field values; pretty blocks are repr-exact for scalars and short strings and "
